@@ -287,13 +287,17 @@ def exec_at_line(events, line):
 def sched_line(evs):
     """replayable schedule line of one recorded execution"""
     r = evs[0]
-    head = ['prog=%s' % r['o']] + ['%s=%d' % (k, v) for k, v in sorted(r.get('p', {}).items()) if k not in ('starveT', 'starveK')]
+    head = ['prog=%s' % r['o']] + ['%s=%d' % (k, v) for k, v in sorted(r.get('p', {}).items()) if k not in ('starveT', 'starveK', 'starveM')]
     steps = []
+    mask, at = 0, None
     for e in evs[1:]:
-        if e['k'] == 'starved' and not any(h.startswith('starveT=') for h in head):
-            head += ['starveT=%d' % e['t'], 'starveK=%d' % len(steps)]
+        if e['k'] == 'starved' and (at is None or at == len(steps)):
+            at = len(steps)                      # all reports of one solo / stall episode sit at the same schedule position
+            mask |= 1 << e['t']
         if e.get('s', 0) == 1:
             steps.append('%d:%d' % (e['t'], e.get('a', 0)))
+    if at is not None:
+        head += ['starveM=%d' % mask, 'starveK=%d' % at]
     return ' '.join(head) + ' | ' + ' '.join(steps)
 
 
